@@ -22,11 +22,16 @@ import (
 // set (sorted). Group "split": splitTopic on single strings.
 
 type c14Op struct {
-	K string   `json:"k"`           // sub | unsub | disc | find
-	C string   `json:"c,omitempty"` // client id
-	F []string `json:"f,omitempty"` // filters (sub, unsub)
-	Q []int    `json:"q,omitempty"` // requested QoS per filter (sub)
-	T string   `json:"t"`           // topic (find)
+	K     string   `json:"k"`               // conn | sub | unsub | disc | find
+	C     string   `json:"c,omitempty"`     // client id
+	F     []string `json:"f,omitempty"`     // filters (sub, unsub)
+	Q     []int    `json:"q,omitempty"`     // requested QoS per filter (sub)
+	T     string   `json:"t"`               // topic (find)
+	Clean bool     `json:"clean,omitempty"` // conn: cleanSession flag
+	// disc: disconnect (DISCONNECT packet) | drop (socket closed) | admin, admin-drop
+	// (Broker.deleteSession first, then the connection ends); conn on a connected
+	// id (take-over): how the superseded connection ends afterwards (disconnect | drop)
+	How string `json:"how,omitempty"`
 }
 
 type c14In struct {
@@ -416,6 +421,12 @@ func TestVerifC14(t *testing.T) {
 				t.Fatal(err)
 			}
 			out.Emit(vfCase{ID: sc.ID, Src: sc.Src, Grp: sc.Grp, In: in, Obs: c14Run(in)})
+		case "conn":
+			var in c14In
+			if err := json.Unmarshal(sc.In, &in); err != nil {
+				t.Fatal(err)
+			}
+			out.Emit(vfCase{ID: sc.ID, Src: sc.Src, Grp: "conn", In: in, Obs: c14RunConn(in)})
 		case "split":
 			var in c14SplitIn
 			if err := json.Unmarshal(sc.In, &in); err != nil {
@@ -440,6 +451,9 @@ func TestVerifC14(t *testing.T) {
 		case i%10 == 9:
 			in := c14GenSplit(r)
 			out.Emit(vfCase{ID: fmt.Sprintf("%s-split-%d", src, i), Src: src, Grp: "split", In: in, Obs: c14RunSplit(in)})
+		case i%5 == 1:
+			in := c14GenConn(r, adv)
+			out.Emit(vfCase{ID: fmt.Sprintf("%s-conn-%d", src, i), Src: src, Grp: "conn", In: in, Obs: c14RunConn(in)})
 		case i%5 == 3:
 			in := c14GenHist(r, adv, true)
 			out.Emit(vfCase{ID: fmt.Sprintf("%s-wild-%d", src, i), Src: src, Grp: "wild", In: in, Obs: c14Run(in)})
